@@ -64,6 +64,27 @@ import PycsepVerif.PyPrelude
     `numpy.empty(shape)`        uninitialised memory: the arbitrary value `empty'`, a parameter of the definition
     `time.time()`               a clock reading: may be stored in a local, any use stops the translation
     `x / opt`, `x * opt` …      `PySM.getOpt`: TypeError when the Optional operand is None
+    `print(…)`                  a no-op (output only; its arguments are not evaluated)
+    `obj.m(…)` that changes `obj`   TARGETS.rec_methods with `mutates`: opaque `T_m : T → … → M (ret × T)`, the object is rebound
+                                (also `x = obj.m(…)`: the object first, then `x` = the returned value)
+    `opt.attr`, `opt.m(…)`      attribute / method of an Optional object: `PySM.getObj`, AttributeError when it is None
+    `return None` / `return x`  needs the declared Optional result type TARGETS.returns: `none` / `some x`
+    `(None, None)`              a tuple display with None members: only where the declared type makes them Optional
+    `a / b` of numpy integers   under TARGETS.int_div = "real": `RealOps.div (ofNat a) (ofNat b)` (numpy's true division
+                                never raises; a zero divisor is outside the real layer); `numpy.log10` of an integer
+                                array = `log10 (ofNat n)` elementwise
+    `try: x = f(…) except (E1, …): H`   around ONE call of an opaque raising function: `PySM.tryCatch` — H (which may
+                                `continue`) runs when the call raised one of the named classes, other exceptions go on;
+                                x is not bound in H
+    `zip_longest(*[g()] * k)`   g a nested generator declared opaque (its items are a parameter): `PySM.chunksLongest k`,
+                                groups of k items as lists of Optionals, the last one filled with None
+    `None in t`, `f(*t)`        on such a group: `List.any Option.isNone`; an opaque f declared `star` takes the list
+    `r["key"]` (r opaque)       opaque projection `<T>_<key>` (TARGETS.rec_attrs, as for attributes)
+    `warnings.warn(…)`          a no-op (default warning filters); a local declared in TARGETS.ignore_locals (the message
+                                text, built by `%` from values already computed) is not evaluated and may only be used there
+    nan / -inf in the real layer   values of type `Option (ELL α)` (`none` = nan): `numpy.isnan`, `x == -numpy.inf`,
+                                `numpy.isnan(numpy.sum(xs))` = `anyNan`; `x != 0` on reals = `!isZeroR`; `~mask`;
+                                an int literal where an opaque value is expected = the opaque injection TARGETS.lit_as
     `numpy.random.seed(s)`      both hidden streams are replaced by those of the freshly seeded generator, given by the
                                 opaque parameters `seed_rng : Int → List Rat`, `seed_pois : Int → List Nat`
     `numpy.random.poisson(m)`   the next element of the hidden stream `pois' : List Nat` (`PySM.rngPoisson`)
@@ -86,6 +107,8 @@ inductive Exc where
   | typeError
   | attributeError
   | keyError
+  | osError                  -- OSError = IOError = EnvironmentError
+  | runtimeError
   | rngExhausted             -- the supplied stream of uniform numbers ran out (NOT a Python exception)
   | outOfFuel                -- a `while` loop did not finish within its fuel (NOT a Python exception)
   deriving DecidableEq, Repr
@@ -161,6 +184,25 @@ def enumerateFrom {β : Type} : Nat → List β → List (Nat × β)
   | _, [] => []
   | k, x :: xs => (k, x) :: enumerateFrom (k + 1) xs
 def enumerate {β : Type} (xs : List β) : List (Nat × β) := enumerateFrom 0 xs
+
+/-- `itertools.zip_longest(*[it] * k)` for ONE iterator object `it` repeated `k` times: the items of `it` in groups of `k`
+    in order (each `next` takes the next item), the last group filled with `None`; no group when the iterator is empty.
+    `fuel` = an upper bound of the number of groups (the length of the list is enough) -/
+def chunksLongestAux {β : Type} (k : Nat) : Nat → List β → List (List (Option β))
+  | 0, _ => []
+  | _ + 1, [] => []
+  | fuel + 1, x :: xs =>
+    let g := (x :: xs).take k
+    (g.map some ++ List.replicate (k - g.length) none) :: chunksLongestAux k fuel ((x :: xs).drop k)
+def chunksLongest {β : Type} (k : Nat) (xs : List β) : List (List (Option β)) :=
+  if k = 0 then [] else chunksLongestAux k xs.length xs
+
+/-- `try: x = f(…) except (E1, E2): H` around ONE call: the handler runs when the call raised one of the named classes
+    (`catches`), any other exception goes on -/
+def tryCatch {β ρ : Type} (act : M β) (catches : Exc → Bool) (onOk : β → M ρ) (onErr : Unit → M ρ) : M ρ :=
+  match act with
+  | .ok v => onOk v
+  | .error e => if catches e then onErr () else .error e
 
 /-- the rows of `a` whose mask entry is True, in order (numpy boolean-mask indexing on the first axis) -/
 def maskSel {β : Type} : List β → List Bool → List β
@@ -292,7 +334,33 @@ def column {ρ : Type} (fieldOf : String → Option (ρ → Rat)) (name : String
   | some f => .ok (a.map f)
   | none => .error (.py .valueError)
 
+/-! ## floats that may be nan / -inf in the real layer: `Option (ELL α)`, `none` = nan -/
+section NReal
+variable {α : Type} [RealOps α]
+
+/-- `numpy.isnan(x)` -/
+def isNan (x : Option (ELL α)) : Bool := x.isNone
+/-- `x == -numpy.inf` (False for nan) -/
+def isNegInf : Option (ELL α) → Bool
+  | some .negInf => true
+  | _ => false
+def isNegInfE : ELL α → Bool
+  | .negInf => true
+  | _ => false
+/-- `numpy.isnan(numpy.sum(xs))` for values that are nan, -inf or finite (no +inf): some entry is nan -/
+def anyNan (xs : List (Option (ELL α))) : Bool := xs.any isNan
+/-- `x == 0` / `x != 0` in the real layer: `x ≤ 0 ∧ 0 ≤ x` -/
+def isZeroR (x : α) : Bool := RealOps.le x RealOps.zero && RealOps.le RealOps.zero x
+/-- `numpy.log10` -/
+def log10 (x : α) : α := RealOps.div (RealOps.log x) (RealOps.log (RealOps.ofNat 10))
+end NReal
+
 /-! ## Optional values -/
+
+/-- a method / attribute of an Optional object (`forecast.expected_rates.sum()`): AttributeError when it is None -/
+def getObj {β : Type} : Option β → M β
+  | some v => .ok v
+  | none => .error .attributeError
 
 /-- an Optional value used where a number is needed (`data / self.n_cat`): TypeError when it is None -/
 def getOpt {β : Type} : Option β → M β
